@@ -33,3 +33,23 @@ PROPS["C16"] = {
     "uncovered": ["int overflow of ranks (harness probes sizes up to 2^24 only)", "floating-point rounding inside floor()"],
     "assumptions": ["cell-boundary points (exact margin < 2^-30) are excluded and counted as skipped"],
 }
+
+PROPS["C20"] = {
+    "module": "GstProofs.Props.C20",
+    "theorems": [
+        "GstProofs.Poly.edgeStep_halfOpen",
+        "GstProofs.C20.halfopen", "GstProofs.C20.ray", "GstProofs.C20.orient",
+        "GstProofs.C20.union_spec", "GstProofs.C20.nested_spec", "GstProofs.C20.order_independent",
+        "GstProofs.C20.zlimits_exclude", "GstProofs.C20.select",
+    ],
+    "harnesses": ["vh_c20"],
+    "level": "proof",
+    "technique": "Lean 4 theorems: PolyElem::inside (transcribed) equals the half-open crossing rule for every vertex list and off-boundary point, which equals the generic-ray crossing parity for all small perturbations; set rules and db_polygon as list theorems; exact differential correspondence with the library plus an independent exact winding-number oracle",
+    "level_text": "The inclusion test is proved equal to the crossing parity of a generic ray (limit from below) for all polygons and all off-boundary points, independent of orientation; union/nested/vertical-limit rules and the db selection are theorems of the model; the model is tied to PolyElem/Polygons/db_polygon by an exact differential run on generated simple polygons with all lattice points of their bounding box.",
+    "level_note": "Trusted: Lean kernel + 3 standard axioms; Jordan curve theorem for polygons (crossing parity = interior) is not proved; the transcription is validated by the correspondence run; double rounding of xinter is not modelled (vertices are integer/dyadic so every decision is exact).",
+    "rule": "random simple polygons with integer vertices scaled by a dyadic factor (star-shaped, rectilinear stairs, x-monotone, comb; 3-400 vertices; both orientations; every starting vertex; closed or open), query points = all lattice (and half-lattice) points of the bounding box; polygon sets with z-limits, union/nested, db_polygon with selection and periodicity. distinct = distinct request line; every line carries up to 250 query points",
+    "trivial": lambda line: False,
+    "trusted_base": TB_COMMON + ["Jordan curve theorem for polygons (geometric truth := generic-ray crossing parity)"],
+    "uncovered": ["convex-hull construction (Polygons::createFromDb)", "_isClosed tolerance 1e-5 for nearly-closed outlines (generator produces exactly closed or clearly open outlines)"],
+    "assumptions": ["points on the boundary are decided exactly by the driver and skipped"],
+}
